@@ -36,6 +36,30 @@ open NV.Gen.C12 in
 /-- network users are searched a slot from index 1 on (slot 0 is the console user's) -/
 theorem firstUserSlot_spec : NV.Gen.C12.firstUserSlot = 1 := rfl
 
+open NV.Gen.C12 in
+/-- get_user_data's two-step space rule (space at `text_end`; if short: compaction, space at the pending length; if
+    still short: discard) discards exactly when the pending length alone is short - `text_start` does not matter -
+    and otherwise asks recv() for at least `MAX_TEXT / 16` bytes: a client that never has more unread is read completely -/
+theorem cSpaceRule_discard (start len : Nat) :
+    (cSpaceRule start len).2.1 = roomShort len ∧
+    ((cSpaceRule start len).2.1 = false → recvChunk ≤ (cSpaceRule start len).2.2) ∧
+    ((cSpaceRule start len).2.1 = true → recvChunk ≤ (cSpaceRule start len).2.2) := by
+  have hmono : (maxText - (start + len) - 1) / spaceDiv ≤ (maxText - len - 1) / spaceDiv :=
+    Nat.div_le_div_right (by omega)
+  unfold cSpaceRule roomShort recvChunk
+  dsimp only
+  by_cases h1 : (maxText - (start + len) - 1) / spaceDiv < maxText / compactDiv
+  · simp only [h1, if_true]
+    by_cases h2 : (maxText - len - 1) / spaceDiv < maxText / compactDiv
+    · simp only [h2, if_true, decide_true]
+      exact ⟨trivial, (fun h => by cases h), fun _ => by decide⟩
+    · simp only [h2, if_false, decide_false]
+      exact ⟨trivial, (fun _ => by omega), fun h => by cases h⟩
+  · simp only [h1, if_false]
+    have h2 : ¬ (maxText - len - 1) / spaceDiv < maxText / compactDiv := by omega
+    simp only [h2, decide_false]
+    exact ⟨trivial, (fun _ => by omega), fun h => by cases h⟩
+
 /-- the table really grows when it is full (otherwise `all_users[i]` would be written outside it) -/
 theorem growBy_pos : 0 < growBy := by decide
 
@@ -63,11 +87,11 @@ open NV.Gen.C12 in
     CMD_IN_BUF cleared when nothing complete is left, second cursor step, NOECHO handling, last_time -
     the order `getUserCommand` mirrors -/
 theorem gucOrder_spec : gucOrder =
-    ["DeclStmt:s_next_user", "DeclStmt:", "DeclStmt:ip", "DeclStmt:user_command", "DeclStmt:",
+    ["DeclStmt:s_next_user", "DeclStmt:ip", "DeclStmt:user_command",
      "ForStmt:all_users,first_cmd_in_buf,flush_message,iflags,ip,max_users,message_length,ob,s_next_user,user_command",
      "IfStmt:ip,user_command", "BinaryOperator:command_giver,ip,ob", "CallExpr:telnet_neg,user_command",
      "CallExpr:ip,next_cmd_in_buf", "IfStmt:cmd_in_buf,iflags,ip", "IfStmt:max_users,s_next_user",
-     "IfStmt:add_message,command_giver,iflags,ip", "BinaryOperator:ip,last_time", "ReturnStmt:"] := rfl
+     "IfStmt:add_message,command_giver,iflags,ip", "BinaryOperator:ip,last_time"] := rfl
 
 open NV.Gen.C12 in
 /-- body of the scan loop: fetch the slot under the cursor, flush pending output, the CMD_IN_BUF / first_cmd_in_buf /
@@ -80,10 +104,31 @@ open NV.Gen.C12 in
 /-- process_user_command(): one `if ((user_command = get_user_command ()))` block holding all the processing, then
     the "no more commands" exit -/
 theorem pucOrder_spec : pucOrder =
-    ["DeclStmt:user_command", "DeclStmt:", "DeclStmt:", "DeclStmt:command_giver", "DeclStmt:ip", "DeclStmt:",
-     "BinaryOperator:",
+    ["DeclStmt:user_command", "DeclStmt:command_giver", "DeclStmt:ip",
      "IfStmt:apply,call_function_interactive,command_giver,current_interactive,get_user_command,iflags,ip,print_prompt,process_command,user_command",
-     "BinaryOperator:", "BinaryOperator:command_giver", "BinaryOperator:current_interactive", "ReturnStmt:"] := rfl
+     "BinaryOperator:command_giver", "BinaryOperator:current_interactive"] := rfl
+
+open NV.Gen.C12 in
+/-- first_cmd_in_buf: skip NULs (text_start), empty -> reset, single-char -> hit, find the end, terminated -> hit,
+    otherwise move the partial line to the front (and truncate an over-long one) - the order `firstCmd` mirrors -/
+theorem firstCmdInBufOrder_spec : firstCmdInBufOrder =
+    ["BinaryOperator:ip,text,text_start", "WhileStmt:ip,text,text_end", "BinaryOperator:ip,text,text_start",
+     "IfStmt:ip,text,text_end,text_start", "IfStmt:iflags,ip,text,text_start", "WhileStmt:ip,text,text_end",
+     "IfStmt:ip,text,text_end,text_start", "BinaryOperator:ip,text,text_start", "BinaryOperator:ip,text",
+     "WhileStmt:ip,text,text_end", "CompoundAssignOperator:ip,text_end,text_start", "BinaryOperator:ip,text_start",
+     "IfStmt:ip,text,text_end"] := rfl
+
+open NV.Gen.C12 in
+/-- cmd_in_buf: skip NULs, empty -> no, single-char -> yes, find the end, terminated -> yes (`hasCmd`) -/
+theorem cmdInBufOrder_spec : cmdInBufOrder =
+    ["BinaryOperator:ip,text,text_start", "WhileStmt:ip,text,text_end", "IfStmt:ip,text,text_end", "IfStmt:iflags,ip",
+     "WhileStmt:ip,text,text_end", "IfStmt:ip,text,text_end"] := rfl
+
+open NV.Gen.C12 in
+/-- next_cmd_in_buf: step over the command, over the NULs behind it, advance text_start or reset (`nextCmd`) -/
+theorem nextCmdInBufOrder_spec : nextCmdInBufOrder =
+    ["DeclStmt:ip,text,text_start", "WhileStmt:ip,text,text_end", "WhileStmt:ip,text,text_end",
+     "IfStmt:ip,text,text_end,text_start"] := rfl
 
 /-! ### finite maps -/
 
